@@ -37,13 +37,17 @@ CLAIMS["C11"] = ('Panic-freedom, bounded pre-allocation and loop progress of the
 CLAIMS["C01"] = ("Proof-level (Verus, unbounded) that grin's Rust code ASSEMBLES AND ENFORCES the balance equation over an abstract additive group: sum_commitments(overage) = outputs - inputs + overage*H for both signs of the overage and fails on i64::MIN; sum_kernel_excesses = (kernels, kernels + offset*G); verify_kernel_sums accepts iff the two sides are equal; TransactionBody::validate batch-verifies the range proof of EVERY output against that output's own commitment and the signature of every kernel (iterator loop with invariant); Transaction::validate / TransactionBody::validate_read / verify_features / Block::validate return Ok only if every listed rule was checked with the right operands (fee as overage for a tx, minus the subsidy and total-minus-previous offset for a block, coinbase check, lock heights, NRD rule); pipe::verify_block_sums stores exactly the sums verified over (parent's stored sums + block); header overage == -60 grin, total_overage, reward (Kani, full domain). NOT decided: that libsecp256k1 implements the group, range proofs and signatures (cryptographic assumptions), and the 'after any accepted history' clause (stored sums vs full state across reorgs).",
     VERUS_TB + KANI_TB + "all commitment arithmetic is libsecp256k1 behind FFI: modelled by assumed group contracts; callees of the validators are uninterpreted predicates.",
     'Verus contracts on extracted real functions over an abstract group + conjunction-of-checks contracts; Kani for the scalar side', "6 C01")
-CLAIMS["C02"] = ("Proof-level (Verus) on the real code of (a) the unspent-leaf bitmap algebra: LeafSet add/remove change exactly one position, rewind(cutoff, rm) yields (old restricted to <= cutoff) union rm as a whole-view postcondition, discard restores the last flushed bitmap; (b) the single-input / single-output admission decision of UTXOView: validate_input returns (out, pos) only if the index maps the commitment to pos, the output MMR holds out at pos-1 and out's commitment is the input's; it fails when the commitment is not indexed or the leaf is gone; validate_output fails on an indexed, still-present duplicate; (c) the state changes of Extension: apply_input succeeds only on an unspent leaf and marks the same position spent in both the output and range-proof MMRs, apply_output refuses an indexed still-unspent duplicate commitment and otherwise pushes output and proof at the same position, apply_block returns Ok only if every output went through apply_output, the inputs passed validate_inputs against this extension's state, every resolved input went through apply_input and the position/spent indexes were updated for exactly those; input_pos_to_rewind. The chain-level statement over forks, reorganisations, restart and compaction is a history property and is not decided.",
+CLAIMS["C02"] = ("Proof-level (Verus) on the real code of (a) the unspent-leaf bitmap algebra: LeafSet add/remove change exactly one position, rewind(cutoff, rm) yields (old restricted to <= cutoff) union rm as a whole-view postcondition, discard restores the last flushed bitmap; (b) the single-input / single-output admission decision of UTXOView: validate_input returns (out, pos) only if the index maps the commitment to pos, the output MMR holds out at pos-1 and out's commitment is the input's; it fails when the commitment is not indexed or the leaf is gone; validate_output fails on an indexed, still-present duplicate; (c) the state changes of Extension: apply_input succeeds only on an unspent leaf and marks the same position spent in both the output and range-proof MMRs, apply_output refuses an indexed still-unspent duplicate commitment and otherwise pushes output and proof at the same position, apply_block returns Ok only if every output went through apply_output, the inputs passed validate_inputs against this extension's state, every resolved input went through apply_input and the position/spent indexes were updated for exactly those; input_pos_to_rewind; (d) the fork machinery: rewind_and_apply_header_fork / rewind_and_apply_fork rewind to the first common ancestor (of the header being applied / of the current head) and re-apply exactly the stored headers / blocks between that point and the target, oldest first, each block only after coinbase maturity, UTXO validation and block sums were re-verified (termination of the walks not proved). The chain-level statement over forks, reorganisations, restart and compaction is a history property and is not decided.",
     VERUS_TB + "croaring::Bitmap is C code: its operations are assumed set operations; the LMDB index and output MMR are uninterpreted functions; positions < 2^32-1; index positions >= 1.",
     'Verus contracts on extracted real functions over abstract bitmap / index / MMR views', "6 C02")
-CLAIMS["C03"] = ("One clause only: the head can move only to strictly more cumulative work -- has_more_work(h, tip) <=> h.total_difficulty > tip.total_difficulty for all u64 pairs, the derived "
-    "ordering on Difficulty is the numeric one, Tip::from_header copies height/prev/difficulty (Kani, full domain). Delivery-order independence and head = argmax over accepted blocks are "
-    "whole-history properties through LMDB and are not decided.",
-    KANI_TB + "header hash stubbed to a constant.", "Kani full-domain harness on the real functions", "6 C03")
+CLAIMS["C03"] = ("The 'head only ever moves to a fully validated block with strictly more cumulative difficulty' clause, proof-level: (Verus, extracted text incl. the extension closures lifted to named functions) "
+    "pipe::process_block moves the stored chain head ONLY to the tip of the block being processed, ONLY if it has strictly more total difficulty than the head read at the start, and ONLY after check_known, the PoW check, header "
+    "processing, validate_block and the whole extension closure (fork rewind, coinbase maturity, UTXO validation, block sums, apply + roots/sizes) succeeded; otherwise the extension is force-rolled-back and the head untouched; "
+    "process_block_header / process_block_headers do the same for the header head (every header of a sync batch validated first). (Kani, full domain) has_more_work(h, tip) <=> h.total_difficulty > tip.total_difficulty for all u64 "
+    "pairs, the derived ordering on Difficulty is the numeric one, Tip::from_header copies height/prev/difficulty. Delivery-order independence, orphan handling and head = argmax over accepted blocks are whole-history properties "
+    "through LMDB and are not decided.",
+    VERUS_TB + KANI_TB + "txhashset::extending / header_extending are assumed (they build structs holding &mut borrows): Ok(v) only if the closure returned Ok(v), closure writes kept only without a forced rollback; the validation callees are uninterpreted 'this check passed' predicates; header hash stubbed to a constant in the Kani unit.",
+    "Verus conjunction contracts on extracted real functions with lifted closures + Kani full-domain harness", "6 C03")
 CLAIMS["C04"] = ("Proof-level: (Verus, on extracted text) validate_header returns Ok only if ALL header rules hold -- height = parent+1, scheduled version, strictly later timestamp, MMR counts grew, weight lower bound, and unless SKIP_POW: PoW verifies, cumulative difficulty strictly above the parent's, achieved difficulty >= the increase, increase == network retarget over the parent's ancestors, matching secondary scaling before version 5; UntrustedBlockHeader::read accepts only headers within the future-time limit with scheduled version, admissible edge bits, right proof size and MMR sizes within the per-height weight bound; the wtema retarget is total on its stated domain, deterministic, never below the minimum, exactly max(min, floor(last*14400/(14340+dt))) hence bounded per block, and next_difficulty selects it exactly for versions >= 5. (Kani, all u64 heights x 4 chains) version schedule in 1..=5, monotone, equals the table; damp/clamp bounds; secondary ratio; graph_weight shift safety. NOT decided: the DMA window rule, PoW itself (C05), the header-MMR root commitment, and mutation-of-a-valid-chain as a history statement.",
     VERUS_TB + KANI_TB + "helpers of the validators are uninterpreted; decoded heights < 2^48 for the weight-bound multiplication.",
     'Verus conjunction-of-checks + arithmetic contracts on extracted real functions; Kani full-domain harnesses', "6 C04")
@@ -51,10 +55,11 @@ CLAIMS["C05"] = ("Proof-level (Kani, complete per edge_bits) that proofs survive
     "same bytes (so non-zero padding bits are refused) and every nonce fits edge_bits; decode(encode(p)) == p for all nonce vectors; edge_bits 0 and >63 refused. One harness per edge_bits "
     "(quick: 10 representative values, thorough: all 63) and proof sizes 42 and 8. Cycle verification (the five graph variants) is NOT yet under contract.",
     KANI_TB + "siphash and cycle verifiers outside.", "Kani complete harnesses (full byte domain, constant loop bounds) on the real functions", "6 C05")
-CLAIMS["C06"] = ("Store level only: deductive proof (Verus) on the real AppendOnlyFile::rewind/discard text that discard restores the last flushed view (buffer emptied, start position back to "
-    "the flushed size, backup cleared) after any rewind, with 'flushed' as the invariant; read_from_buffer in range. The chain-level statement (failed process_block leaves head/roots/index "
-    "unchanged) goes through LMDB nested transactions and closures and is not decided.",
-    VERUS_TB + "File/Mmap external; the variable-size (size file) path is abstracted by T6 helpers.", "Verus contracts on extracted real functions", "6 C06")
+CLAIMS["C06"] = ("Proof-level (Verus, extracted text) at two levels. Pipeline: pipe::process_block leaves the stored head untouched on EVERY error path and when the block has no more work, in which case the extension is "
+    "force-rolled-back (closure lifted and verified); rewind_and_apply_fork / rewind_and_apply_header_fork re-apply exactly the fork's stored blocks/headers after rewinding to the common ancestor. Store: AppendOnlyFile::rewind/discard -- "
+    "discard restores the last flushed view (buffer emptied, start position back to the flushed size, backup cleared) after any rewind, with 'flushed' as the invariant; read_from_buffer in range; PMMRBackend::discard discards "
+    "hash file, data file and leaf set together. That txhashset::extending really discards on rollback/Err and that an LMDB child batch aborts on drop are assumed, not decided (structs holding &mut borrows; LMDB).",
+    VERUS_TB + "File/Mmap external; the variable-size (size file) path is abstracted by T6 helpers; txhashset::extending assumed as stated.", "Verus contracts on extracted real functions", "6 C06")
 CLAIMS["C10"] = ("Proof-level (Kani, complete) for the fixed-size consensus types decided so far: KernelFeatures (all four variants), FeeFields, NRDRelativeHeight: for ALL 17-byte strings x ALL u32 protocol "
     "versions x both NRD settings, whatever read accepts re-encodes byte-identically (unknown tags, non-zero reserved bytes, out-of-range heights refused); decode(encode(v)) == v for all values and versions; "
     "the hash-mode byte stream is version independent; Inputs hash-mode stream version independent; read_multi on an empty count (Verus); verify_sorted_and_unique. See the evidence for the full type list (chain, p2p, pow types). Full containers (bodies, blocks, segments) are not under contract.",
